@@ -12,6 +12,24 @@ for _i in (3, 4, 5, 6, 8, 9, 10, 11, 12, 13, 14, 15, 16, 17, 19, 20):
     NOT_APPLICABLE.setdefault(f"C{_i:02d}", _NOT_BUILT)
 
 CHECKS = {
+    "C05": {
+        "text": ("Mixed. Deductive: every write of a pipeline/_process_file targets exactly the file handed to it (fs == store(old fs, file, ...)), "
+                 "_process_file hands the selected file name unchanged to the file context. BOUNDED stand-ins (not counted as proved): filter_files "
+                 "(include mode ignores a ':line' suffix, exclude mode never excludes a whole file through a ':line' pattern) and match_files (== the "
+                 "set-comprehension specification with defaults when None; sorted, duplicate-free, independent of enumeration order) evaluated natively "
+                 "on generated inputs."),
+        "note": "fnmatch, Path.rglob/is_symlink trusted; symlinked manifests (BaseParser.find_file_locations) and 'every fixable file is fixed' are out of reach.",
+        "design_ref": "DESIGN.md section 4 C05",
+    },
+    "C17": {
+        "text": ("Mixed. Deductive: codemodder.run applies exactly match_codemods(include, exclude, sast_only = Sonar-issues-json or SARIF given), and "
+                 "apply_codemods is a sequential fold over that list (ghost event trace: each codemod once, in order). BOUNDED stand-ins (not counted "
+                 "as proved): CodemodRegistry.match_codemods == the reference selection of the statement on generated include/exclude lists over a "
+                 "synthetic and the real registry; CsvListAction; registry order independent of PYTHONHASHSEED."),
+        "note": "Python's re cannot be given an SMT contract for data-dependent patterns: the wildcard predicate is bounded only. argparse trusted.",
+        "design_ref": "DESIGN.md section 4 C17",
+    },
+
     "C03": {
         "text": ("Deductive over a ghost file system (fs: path -> bytes): for each transformer pipeline (libcst, regex, XML) `apply` is verified: no "
                  "changeset => fs unchanged; only the processed file can change; in a real run the recorded diff is text_diff/lines_diff of the "
